@@ -440,22 +440,24 @@ def check_threads(ctx, case):
 
 
 def run(ctx):
-    n_hist, n_rounds = (28, 14) if ctx.tier == "quick" else (1400, 280)
-    for _ in range(ctx.share(n_rounds)):
-        if not ctx.time_left():
-            break
-        check_threads(ctx, {"kind": "threads", "seed": ctx.rng.getrandbits(40), "threads": 8, "ops_per_thread": 2 if ctx.tier == "quick" else 5,
-                            "p_yield": ctx.rng.choice([0.001, 0.003, 0.01])})
-    for _ in range(ctx.share(14 if ctx.tier == "quick" else 700)):
-        if not ctx.time_left():
-            break
-        check_isolation(ctx, {"kind": "isolation", "seed": ctx.rng.getrandbits(40), "alt_ft": ctx.rng.choice([0.0, round(ctx.rng.uniform(0, 9000), 1)]),
-                              "humidity": round(ctx.rng.uniform(20, 95), 1), "k": round(ctx.rng.uniform(0.7, 1.4), 3),
-                              "range_ft": ctx.rng.choice([300.0, 900.0, 2400.0])})
-    for _ in range(ctx.share(n_hist)):
-        if not ctx.time_left():
-            break
-        check_history(ctx, {"kind": "history", "seed": ctx.rng.getrandbits(40), "length": ctx.rng.choice([20, 40, 80] if ctx.tier == "quick" else [20, 40, 80, 120, 200])})
+    n_hist, n_rounds, n_iso = (28, 14, 14) if ctx.tier == "quick" else (1400, 280, 700)
+    todo = {"threads": ctx.share(n_rounds), "isolation": ctx.share(n_iso), "history": ctx.share(n_hist)}
+    # the three kinds of case take turns, so that a run cut short by its deadline has still observed every kind
+    while any(todo.values()) and ctx.time_left():
+        for kind in ("threads", "isolation", "history", "history"):
+            if not todo[kind] or not ctx.time_left():
+                continue
+            todo[kind] -= 1
+            if kind == "threads":
+                check_threads(ctx, {"kind": "threads", "seed": ctx.rng.getrandbits(40), "threads": 8, "ops_per_thread": 2 if ctx.tier == "quick" else 5,
+                                    "p_yield": ctx.rng.choice([0.001, 0.003, 0.01])})
+            elif kind == "isolation":
+                check_isolation(ctx, {"kind": "isolation", "seed": ctx.rng.getrandbits(40), "alt_ft": ctx.rng.choice([0.0, round(ctx.rng.uniform(0, 9000), 1)]),
+                                      "humidity": round(ctx.rng.uniform(20, 95), 1), "k": round(ctx.rng.uniform(0.7, 1.4), 3),
+                                      "range_ft": ctx.rng.choice([300.0, 900.0, 2400.0])})
+            else:
+                check_history(ctx, {"kind": "history", "seed": ctx.rng.getrandbits(40),
+                                    "length": ctx.rng.choice([20, 40, 80] if ctx.tier == "quick" else [20, 40, 80, 120, 200])})
 
 
 def replay(ctx, case):
